@@ -17,7 +17,7 @@
 (*                  Python side (str(float) is never computed in TLA+)     *)
 (* Records are uniform so that TLC can always compare two values.          *)
 (***************************************************************************)
-EXTENDS Integers, Sequences, FiniteSets, TLC
+EXTENDS Integers, Sequences, SequencesExt, FiniteSets, TLC
 
 NoData      == [ty |-> "none",  v |-> 0, items |-> <<>>]
 Float(n)    == [ty |-> "float", v |-> n, items |-> <<>>]
@@ -33,15 +33,13 @@ Str(val)    == IF val.t = "s"
 
 IsNum(val)  == val.t = "n"
 
-RECURSIVE SumSeq(_)
-SumSeq(s) == IF s = <<>> THEN 0 ELSE Head(s) + SumSeq(Tail(s))
+\* (iterative: contexts may hold lists of several hundred numbers)
+SumSeq(s) == FoldLeft(LAMBDA acc, x : acc + x, 0, s)
 
 MapSeq(s, Op(_)) == [i \in 1..Len(s) |-> Op(s[i])]
 
-RECURSIVE SeqMax(_)
-SeqMax(s) == IF s = <<>> THEN 0
-             ELSE LET m == SeqMax(Tail(s)) a == IF Head(s) < 0 THEN -Head(s) ELSE Head(s)
-                  IN IF a > m THEN a ELSE m
+SeqMax(s) == LET S == {IF s[i] < 0 THEN -s[i] ELSE s[i] : i \in 1..Len(s)}
+             IN IF S = {} THEN 0 ELSE CHOOSE m \in S : \A x \in S : x <= m
 
 \* magnitude of a data value / context value, used by state constraints to stay inside
 \* the range where float(n) is exact and TLC's 32-bit integers do not overflow
